@@ -17,18 +17,18 @@ var techniques = map[string]string{
 	"C05": "custom SSA ownership analysis of every write into []any / map[string]any (greatest fixpoint, guard-sensitive), allocator-registration and *big.Int receiver freshness, map-range order-insensitivity shapes",
 	"C06": "custom SSA/call-graph effect analysis: no store rooted at package globals, *Code, code, AST or compiler state reachable from a run; ownership analysis shared with C05",
 	"C07": "custom CFG/AST analysis of (*env).Next: context poll on every instruction-fetch cycle, terminal cancellation/exhaustion typestate, stack-neutral error exits",
-	"C08": "custom static analysis: enum exhaustiveness, panic-site census with call-graph reachability, type-assertion discharge, grammar semantic-value typing, optional-method dispatch chains, range-over-func yield protocol (CFG), parallel-slice length relations discharged at call sites",
+	"C08": "custom static analysis: enum exhaustiveness, panic-site census with call-graph reachability, type-assertion discharge, grammar semantic-value typing, optional-method dispatch chains, range-over-func yield protocol (CFG), parallel-slice length relations discharged at call sites, length facts implied by dominating conditions for every constant cut of a string, argument-count bounds on the VM's positional native-argument reads, lexer step licensing (go/cfg)",
 	"C09": "custom static analysis: parser.go.y precedence/associativity audit, goyacc regeneration compared as Go AST with parser.go, lexer↔grammar↔printer operator text agreement, printer field coverage, in-band EOF sentinel lint",
-	"C10": "custom static analysis: overflow-guard presence on int fast paths (CFG), guarded int negation, integer cells never routed through float64, UseNumber typestate on every JSON decoder, verbatim number plumbing in both encoders, json.Number provenance through third-party decoders (dependency source inspected)",
+	"C10": "custom static analysis: overflow-guard presence on int fast paths (CFG), guarded int negation, integer cells never routed through float64, UseNumber typestate on every JSON decoder, verbatim number plumbing in both encoders, json.Number provenance through third-party decoders (dependency source inspected), range tests before narrowing conversions, clamp-before-multiply and side-of-overflow bounds on saturated conversions of JSON numbers (interprocedural provenance)",
 	"C11": "custom static analysis: single comparison function (call graph + interface-equality census), stable sort API, native string order for keys, typeIndex constants",
 	"C12": "custom static analysis: sibling agreement of the two JSON encoders modulo decoration, single encoder per package, decoration writes are whitespace/SGR constants",
 	"C13": "custom static analysis: codec-pair agreement (matching alphabet, escape, location and conversion halves)",
-	"C14": "custom SSA taint analysis: byte offsets (regexp/strings/len/range-over-string) must not reach jq-visible values unconverted",
+	"C14": "custom SSA taint analysis: byte offsets (regexp/strings/len/range-over-string) must not reach jq-visible values unconverted; cache-key determinacy by backward slicing, flag forwarding in the shipped regex definitions (evaluated builtin.go literal), sentinel-first use of clamped positions, no multiplied cut positions",
 	"C15": "custom static analysis: stream discipline (stdout writers), status-constant and ExitCode table, input-loop exits, terminator bytes, HaltError let through at every error-interception site of the VM",
 	"C16": "custom static analysis: shared-iterator identity, sticky-error typestate over all input iterators, UseNumber typestate",
-	"C17": "custom static analysis: tee capture-buffer window protocol (bytes dropped only up to the decoder's InputOffset), must-assign analysis of the lexer's token over its CFG, token-is-source-slice lint, reconciliation of encoding/json's two offset conventions; one genuine defect (value errors under --stream) carried as a known finding",
-	"C18": "custom static analysis: defer/pairing and capture-time audit of compileModule, emission census of data imports, total-comparator check of modulemeta lists; one genuine defect (importer names visible inside imported modules) carried as a known finding",
-	"C19": "custom capability analysis: ambient-authority symbol census over the call graph, option-only field stores, nil-guarded capability uses, sibling call sites of custom functions",
+	"C17": "custom static analysis: tee capture-buffer window protocol (bytes dropped only up to the decoder's InputOffset), must-assign analysis of the lexer's token over its CFG, token-is-source-slice lint, reconciliation of encoding/json's two offset conventions, terminator agreement between the discarded-line counters and the excerpt scanner, seek-origin audit of the input re-read, rune-boundary reaching-definitions over the excerpt cuts, licensing of every lexer step by a test of the byte stepped over (go/cfg)",
+	"C18": "custom static analysis: defer/pairing and capture-time audit of compileModule, emission census of data imports, total-comparator check of modulemeta lists, shape of the two lookup candidates, unnormalised search-path flow, user metadata before computed keys; one genuine defect (importer names visible inside imported modules) carried as a known finding",
+	"C19": "custom capability analysis: ambient-authority symbol census over the call graph, option-only field stores, nil-guarded capability uses, sibling call sites of custom functions, exp-bracket placement of native arguments in the emission templates of compileCallInternal with a checked value predicate",
 	"C20": "custom static analysis: tail-position check of recursive builtin definitions over the evaluated builtin.go AST, tail-call rewrite conditions, frame reuse ordering, per-iteration backtrack pairing",
 }
 
